@@ -399,13 +399,30 @@ def check_mark_nodes(chk, rep, repo):
             and afterl[0].value == ("K", "RELEVANT") and not afterl[0].guards
         after_ok = mark_after if conds else (mark_after or not afterl)
         ok = cond_ok and step_ok and in_ok and after_ok
+        others_skip = set()
+        if not ok and head is not None and step_ok and conds == [cont] and not breaks:
+            # the other phase of the same walk: mark the start node, then `while pred != NIL: move to pred; mark it`
+            first_node = node(ip)
+            before = [e for e in w.events if e.kind == "store" and not e.loops and e.seq < li.first_seq]
+            nxt_node = li.carried[walker][1]
+            nxt_node = nxt_node[1] if nxt_node[0] == "old" else nxt_node
+            if nxt_node[0] != "idx":
+                nxt_node = node(nxt_node)  # (index walk: the carried value is the index)
+            pre_ok = len(before) == 1 and before[0].target == ("attr", first_node, "relevant") and before[0].value == ("K", "RELEVANT") \
+                and not before[0].guards
+            in2 = len(inside) == 1 and inside[0].target == ("attr", nxt_node, "relevant") and inside[0].value == ("K", "RELEVANT") \
+                and tuple(facts(inside[0].guards)) == body_facts and all(m.seq < inside[0].seq for m in moves)
+            if pre_ok and in2 and not afterl:
+                ok = True
+                others_skip = set(map(id, before))
         if cond_ok and step_ok and in_ok and not after_ok:
             detail = "the terminal node of the path (the prototype) is not marked"
         elif cond_ok and step_ok and not in_ok:
             detail = "nodes on the predecessor chain are not marked RELEVANT (before the walk advances)"
         elif not step_ok:
             detail = "the walk does not advance to the predecessor"
-        others = [e for e in w.events if e.kind == "store" and e not in inside and e not in afterl]
+        others = [e for e in w.events if e.kind == "store" and e not in inside and e not in afterl
+                  and id(e) not in others_skip]
         for e in others:
             rep.ev("P2-stray", e, False, "mark_nodes may only write relevance flags")
     rep.fn("P2-walk", fn, "mark_nodes marks the start node, its ancestors and the root", ok, detail)
